@@ -191,3 +191,39 @@ proof fn lemma_concat_inj()
                         "Options is reduced to its `target` field; translate_query is external (uninterpreted result)"})
     body = sql_mod + target.text + "\n" + ORACLE + lemma + tdef.text + "\n" + fs.text + "\n" + sl.text + "\n" + cs.text
     return PRELUDE + body + "\n} // verus!\nfn main() {}\n"
+
+
+# ----------------------------------------------------------------------------- thorough tier: witness sweep on the real compiler
+SWEEP_DOC = ("for every target `prqlc list-targets` prints: SQL under the explicit option == SQL with only the `prql target:` header; an explicit option overrides every "
+             "other header; neither = sql.generic; an unknown header without option is an error (validates by execution the assumed contract of Target::from_str)")
+
+_PROG = "from t\nselect {`a b`, c, d = c + 1}\nfilter c > 1\nsort c\ntake 2..5\n"
+
+
+def sweep():
+    import subprocess
+    import replaylib
+    out = []
+    names = [l.strip() for l in subprocess.run([replaylib.prqlc_bin(), "list-targets"], capture_output=True, text=True).stdout.split("\n") if l.strip().startswith("sql.")]
+    names = [n for n in names if n != "sql.any"]
+
+    def rec(lab, inp, failing, expected, observed):
+        out.append({"obligation": "dialect_select." + lab, "input": inp, "failing": failing, "expected": expected, "observed": observed[:300], "replay_kind": "none"})
+
+    ok_g, generic = replaylib.compile_prql(_PROG, "sql.generic")
+    ok_n, neither = replaylib.compile_prql(_PROG, None)
+    rec("DS1b", _PROG, not (ok_g and ok_n and generic == neither), "no option, no header = sql.generic", neither)
+    for d in names:
+        ok1, by_opt = replaylib.compile_prql(_PROG, d)
+        ok2, by_hdr = replaylib.compile_prql("prql target:%s\n%s" % (d, _PROG), None)
+        rec("DS1c", "header %s vs option %s" % (d, d), not (ok1 and ok2 and by_opt == by_hdr), by_opt, by_hdr)
+        for e in names:
+            if e == d:
+                continue
+            ok3, both = replaylib.compile_prql("prql target:%s\n%s" % (e, _PROG), d)
+            if not (ok3 and both == by_opt):
+                rec("DS1a", "option %s, header %s" % (d, e), True, by_opt, both)
+        rec("DS1a", "option %s against every other header" % d, False, "", "")
+    ok4, bad = replaylib.compile_prql("prql target:sql.nosuchdialect\n" + _PROG, None)
+    rec("DS1d", "header sql.nosuchdialect, no option", ok4 or bad.startswith("PANIC"), "an error", bad)
+    return out
